@@ -113,3 +113,4 @@ def r_only_user_raises(ctx: Ctx, rule: str) -> None:
             rep.ob(rule, "a step that may raise is a user-code step (or runs a package function judged on its own)", ok, node=m,
                    detail="" if ok else "this step can raise an exception of its own that would surface from flush()/gather_and_close() instead of the user's")
     rep.floor(rule, "may-raise steps examined", n, 4)
+    CL.r_no_live_iteration(ctx, "R12.8", ("flush", "gather_and_close"))
